@@ -772,8 +772,8 @@ def _assert_can_fail(ctx, b, c, dead_edges):
 
 
 def rule_t_dbg(ctx):
-    R = RuleResult("T-dbg", "every debug-only assertion about whether a resize is pending is implied by what the (release) code establishes anyway, so the "
-                   "debug build never stops where the release build would continue")
+    R = RuleResult("T-dbg", "every debug-only assertion about whether a resize is pending, or about how many elements the old table holds, is implied by what "
+                   "the (release) code establishes anyway, so the debug build never stops where the release build would continue")
     ts = typestate(ctx)
     from rules_typestate import rule_t_grow
     tg = rule_t_grow(ctx)
@@ -915,6 +915,44 @@ def rule_t_dbg(ctx):
             if not ok:
                 R.viol(key, c.where(), "debug_assert in %s requires LEFT=%s, which the analysis cannot derive from the code that also runs in release: "
                        "the debug build may panic where release proceeds" % (b.path, kind))
+    # .. and about how many elements a table holds: an old table that exists but is empty (after retain / replace_entry_with), a main table that is
+    # empty while the old one is not (after reserve), a table that is exactly full are all legal states, so a debug-only assertion on a table's
+    # length must be implied by a test that the release build makes too
+    from rules_typestate import old_empty_edges
+    HBT_ = "hashbrown::raw::RawTable::"
+    for b in ctx.facts.bodies.values():
+        dbg_blocks = set()
+        for sw, dbg, rel, is_da in _debug_only_blocks(ctx, b):
+            if is_da:
+                dbg_blocks |= _region_blocks(b, dbg, rel)
+        for c in ctx.calls(b):
+            if b.is_cleanup(c.loc.bb) or c.tname not in (HBT_ + "len", HBT_ + "is_empty"):
+                continue
+            if not (c.loc.bb in dbg_blocks or in_macro(c.t["span"], "debug_assert", "debug_assert_eq", "debug_assert_ne")):
+                continue
+            # only the old table: "an old table exists, so it holds something" is the tempting, wrong belief (retain and replace_entry_with leave an
+            # empty one behind).  Assertions about the main table or a local table are left to the reader.
+            is_old = ctx.role(b, c.arg_path(0)) == OLD if c.arg_path(0) is not None else False
+            if not is_old and b.kind == "Closure" and c.arg_path(0) is not None and c.arg_path(0).strip_refs().root == 2 and not c.arg_path(0).fields():
+                site = ctx.closure_sites().get(b.dpath)
+                if site is not None:
+                    pb = site[0]
+                    for pc in ctx.calls(pb):
+                        if b in pc.closure_args() and pc.name in (OPT + "map", OPT + "and_then", OPT + "map_or", OPT + "is_some_and", OPT + "filter") and pc.args:
+                            sd = pb.source_def(pc.args[0])
+                            if sd is not None and sd[1] == "call":
+                                lc0 = ctx.call_at(pb, sd[0].bb).local_callee()
+                                if lc0 is not None and lc0.path in (getattr(ctx.facts, "old_accessors", {}) or {}):
+                                    is_old = True
+            if not is_old:
+                continue
+            n += 1
+            implied = any(edge_dominates(b, e, c.loc.bb) for e, v in old_empty_edges(ctx, b).items() if not in_macro(b.term(e[0])["span"], "debug_assert",
+                                                                                                                      "debug_assert_eq", "debug_assert_ne"))
+            R.inst(fn=b.path, site=c.where(), asserts="the old table's number of elements", verdict="ok: implied by a test made in all profiles" if implied else "VIOLATION")
+            if not implied:
+                R.viol("%s:debug_assert:table-length" % b.path, c.where(), "a debug-only assertion in %s depends on %s of the old table: an old table that exists but is "
+                       "empty is a legal state (retain, replace_entry_with), so the debug build may panic where the release build proceeds" % (b.path, c.method))
     R.floor(0, "debug assertions about LEFT")
     return R
 
